@@ -83,6 +83,7 @@ def pVType : Parser VType
   | "bool" :: r => some (.bool, r)
   | "enum" :: r => some (.enum, r)
   | "date" :: r => some (.date, r)
+  | "str" :: r => some (.str, r)
   | _ => none
 
 def pUnit : Parser DUnit
